@@ -1,9 +1,10 @@
 import re
 from re import Pattern
 
+# `^` is the start of the text, not of every line: where a line starts depends on wrapping, and
+# a rule tied to it would convert on a second pass what the first pass moved to a line start.
 ELLIPSIS_PATTERN: Pattern[str] = re.compile(
     r"(^|[\w\"\'“‘”’])(\s*)(\.\.\.)([.,:;?!)\-—\"\'”’]?)(\s*)",
-    re.MULTILINE,
 )
 
 
@@ -30,7 +31,7 @@ def _ellipses_in_text(text: str) -> str:
     Replace three consecutive dots with a proper ellipsis character (…).
 
     Rules:
-    - `...` must be preceded by start of line OR a word character (with optional space)
+    - `...` must be preceded by the start of the text OR a word character (with optional space)
     - `...` must be followed by word character (with optional space) OR punctuation OR end of line
     - If immediately before the `...` is a word character (no whitespace), a space is inserted before it.
     - If immediately after the `...` is a word character (no whitespace), a space is inserted after it.
